@@ -553,9 +553,11 @@ fn run_case(out: &mut Out, seed: u64, base: &Path, cyc: u64) {
 }
 
 /// the tx-pool path: pool submission fills the verification cache, the same transaction is then
-/// committed in a block (cached path in `warm`); and the pool-vs-block cycle limit: a transaction
-/// whose cycles exceed the pool's `max_tx_verify_cycles` but not the block limit is committed by a
-/// block (entry produced under the block limit), detached by a reorg, and submitted to the pool.
+/// committed in a block (cached path in `warm`); and the pool-vs-block cycle limits: a transaction
+/// whose cycles exceed `max_tx_verify_cycles` but not the block limit is committed by a block
+/// (entry produced under the block limit), detached by a reorg (`readd_detached_tx` verifies under
+/// `max_tx_verify_cycles`), and submitted to the pool again (`_process_tx` verifies under
+/// `max_block_cycles`, or the peer's declared cycles). Both pools must agree at every point.
 fn run_pool_case(out: &mut Out, seed: u64, base: &Path, cyc: u64) {
     let mut rng = Rng::new(seed ^ 0x5151);
     out.begin_case(&format!("seed={} kind=pool", seed));
@@ -575,16 +577,45 @@ fn run_pool_case(out: &mut Out, seed: u64, base: &Path, cyc: u64) {
     c.out.op(&format!("max {}", consensus.max_block_cycles()), "ok");
     let fee1 = 1500 + rng.below(500);
     let p1 = spend(&cells[0..1], 0, fee1, 1, None);
+    // X splits a cell into two outputs with different lock args, so that T2 (spending both) runs two
+    // script groups: cycles(T2) = 2 × cyc > pool limit, < block limit
+    let (_, _, script) = always_success_cell();
+    let fee_x = 2000 + rng.below(300);
+    let half = (cells[1].1 - fee_x) / 2;
+    let x = {
+        let mut b = TransactionBuilder::default().cell_dep(always_success_dep()).input(CellInput::new(cells[1].0.clone(), 0));
+        for (i, cap) in [(1u8, half), (2u8, cells[1].1 - fee_x - half)] {
+            let lock = script.clone().as_builder().args(Bytes::from(vec![i]).pack()).build();
+            b = b.output(CellOutput::new_builder().capacity(Capacity::shannons(cap)).lock(lock).build()).output_data(Bytes::new());
+        }
+        b.build()
+    };
     let fee2 = 3000 + rng.below(500);
-    let t2 = spend(&cells[1..3], 0, fee2, 2, None);
+    let t2 = {
+        let total = cells[1].1 - fee_x;
+        TransactionBuilder::default()
+            .cell_dep(always_success_dep())
+            .input(CellInput::new(OutPoint::new(x.hash(), 0), 0))
+            .input(CellInput::new(OutPoint::new(x.hash(), 1), 0))
+            .output(CellOutput::new_builder().capacity(Capacity::shannons(total - fee2)).lock(script.clone()).build())
+            .output_data(Bytes::new())
+            .build()
+    };
     c.content.insert(p1.witness_hash(), (fee1, cyc));
+    c.content.insert(x.witness_hash(), (fee_x, cyc));
     c.content.insert(t2.witness_hash(), (fee2, 2 * cyc));
     let submit = |n: &N, tx: &TransactionView| -> String {
         match n.shared.tx_pool_controller().submit_local_tx(tx.clone()) {
             Ok(Ok(())) => "ok".to_string(),
             Ok(Err(r)) => {
                 let d = format!("{:?}", r);
-                if d.contains("ExceededMaximumCycles") || d.contains("ExceededTransactionSizeLimit") || d.contains("Cycles") { "err cycles".to_string() } else { format!("err {}", &d[..d.len().min(40)]) }
+                if d.contains("ExceededMaximumCycles") || d.contains("Cycles") {
+                    "err cycles".to_string()
+                } else if d.contains("Duplicated") {
+                    "err duplicated".to_string()
+                } else {
+                    format!("err {}", d.split('(').next().unwrap_or("other"))
+                }
             }
             Err(e) => format!("fail {}", e),
         }
@@ -595,7 +626,7 @@ fn run_pool_case(out: &mut Out, seed: u64, base: &Path, cyc: u64) {
         v.sort();
         v
     };
-    let mut both = |c: &mut Ctx, tx: &TransactionView, label: &str| {
+    let both = |c: &mut Ctx, tx: &TransactionView, label: &str| {
         c.cold.clear_vcache();
         let (rc, rw) = (submit(&c.cold, tx), submit(&c.warm, tx));
         c.out.count(&format!("pool:{}:cold={},warm={}", label, rc, rw));
@@ -604,43 +635,49 @@ fn run_pool_case(out: &mut Out, seed: u64, base: &Path, cyc: u64) {
             c.out.oracle_fail("pool-verdict-differs", &format!("{}: cold pool (verification cache empty) answers `{}`, warm pool `{}`", label, rc, rw));
         }
     };
-    // 1. the pool path: P1 is verified by the pools first
+    let same_pools = |c: &mut Ctx, label: &str| {
+        std::thread::sleep(std::time::Duration::from_millis(120));
+        let (ic, iw) = (pool_ids(&c.cold), pool_ids(&c.warm));
+        c.out.count(&format!("pool:{}:cold-has={},warm-has={}", label, ic.len(), iw.len()));
+        if ic != iw {
+            c.out.oracle_fail("pool-content-differs", &format!("{}: cold pool {:?}, warm pool {:?}", label, ic, iw));
+        }
+    };
+    // 1. the pool path: P1 and X are verified by the pools first (entries written by the pool)
     both(&mut c, &p1, "P1-first-submission");
-    both(&mut c, &t2, "T2-above-pool-limit");
+    both(&mut c, &x, "X-first-submission");
     let g = consensus.genesis_hash();
     let mut salt = seed * 1000 + 500;
     let mut next = |tip: &Byte32, bld: &mut ChainBuilder, txs: Vec<TransactionView>, props: Vec<ckb_types::packed::ProposalShortId>| {
         salt += 1;
         bld.build(tip, &BlockSpec { txs, proposals: props, salt, ..Default::default() })
     };
-    let b1 = next(&g, &mut bld, vec![], vec![p1.proposal_short_id(), t2.proposal_short_id()]);
+    let b1 = next(&g, &mut bld, vec![], vec![p1.proposal_short_id(), x.proposal_short_id(), t2.proposal_short_id()]);
     c.deliver(&b1, &[], "pool:prefix");
     let b2 = next(&b1.hash(), &mut bld, vec![], vec![]);
     c.deliver(&b2, &[], "pool:prefix");
-    // 2. branch 1 commits both: P1 through the cached path in `warm` (entry written by the pool),
-    //    T2 through the full path under the block limit (entry written by the block verifier)
-    let b3 = next(&b2.hash(), &mut bld, vec![p1.clone(), t2.clone()], vec![]);
-    c.deliver(&b3, &[], "pool:commit-P1-T2");
-    // 3. a heavier branch without them: both are detached and re-added by the pools
-    let mut t = b2.hash();
+    // 2. committed by a block: the warm node takes the cached path (entries from the pool)
+    let n_entries = c.warm.vcache_len();
+    c.out.count(&format!("pool:warm-cache-entries-written-by-pool-before-commit={}", n_entries));
+    let b3 = next(&b2.hash(), &mut bld, vec![p1.clone(), x.clone()], vec![]);
+    c.deliver(&b3, &[], "pool:commit-P1-X");
+    same_pools(&mut c, "after-commit");
+    // 3. T2 needs 2 × cyc cycles: above the pools' limit
+    both(&mut c, &t2, "T2-above-max_tx_verify_cycles");
+    // 4. a block commits T2 under the block limit: the warm node now holds an entry for it
+    let b4 = next(&b3.hash(), &mut bld, vec![t2.clone()], vec![]);
+    c.deliver(&b4, &[], "pool:commit-T2");
+    // 5. a heavier branch from b3 without T2: T2 is detached and re-added by the pools
+    let mut t = b3.hash();
     for _ in 0..2 {
         let b = next(&t, &mut bld, vec![], vec![]);
         c.deliver(&b, &[], "pool:reorg-branch");
         t = b.hash();
     }
-    std::thread::sleep(std::time::Duration::from_millis(150));
-    let (ic, iw) = (pool_ids(&c.cold), pool_ids(&c.warm));
-    c.out.count(&format!("pool:after-reorg:cold-has={},warm-has={}", ic.len(), iw.len()));
-    if ic != iw {
-        c.out.oracle_fail("pool-content-differs", &format!("after the reorg: cold pool {:?}, warm pool {:?}", ic, iw));
-    }
-    // 4. T2 (cycles above the pool limit; `warm` holds an entry produced under the block limit)
+    same_pools(&mut c, "after-reorg");
+    // 6. T2 submitted again: entry produced under the block limit vs the pool's smaller limit
     both(&mut c, &t2, "T2-resubmitted-after-reorg");
-    both(&mut c, &p1, "P1-resubmitted-after-reorg");
-    let (ic, iw) = (pool_ids(&c.cold), pool_ids(&c.warm));
-    if ic != iw {
-        c.out.oracle_fail("pool-content-differs", &format!("after the re-submissions: cold pool {:?}, warm pool {:?}", ic, iw));
-    }
+    same_pools(&mut c, "after-resubmission");
     c.out.nontrivial(format!("pool|{}|{}", cfg.epoch_len, fee1 % 7));
     // nodes with a running tx-pool service are not torn down in-process (global exit signal); leak them
     let Ctx { cold, warm, .. } = c;
